@@ -52,6 +52,9 @@ pub struct SProfile {
     pub p_sequential: u32,
     pub p_allow_skipped: u32,
     pub p_logs: u32,
+    /// whether a `Log` text may lack its final newline (what the tracing integration never
+    /// produces, and the terminal reporter relies on; a pure event transformer must not care)
+    pub log_fragments: bool,
     /// probability (x/100) that a feature / rule without scenarios is still bracketed
     pub p_empty_brackets: u32,
     /// probability (x/100) that a feature is a twin of the previous one: same title, same
@@ -92,6 +95,7 @@ impl Default for SProfile {
             p_sequential: 20,
             p_allow_skipped: 10,
             p_logs: 25,
+            log_fragments: false,
             p_empty_brackets: 0,
             p_twin_feature: 0,
             outcome_w: [60, 10, 12, 6, 0],
@@ -309,8 +313,17 @@ fn gen_attempt(t: &mut Tape, c: &AttemptCtx<'_>, retries: Option<Retries>, p: &S
         let n = 1 + t.pick(3);
         for j in 0..n {
             let pos = 1 + t.pick(evs.len());
-            let msg = if t.pick(4) == 0 { format!("log {tokbase}:{j} first line\n  second line\n") } else { format!("log {tokbase}:{j}\n") };
+            // (a `Log` need not be a whole line: custom layers / writers deliver fragments, and
+            // two of them may follow each other directly)
+            let msg = match t.pick(6) {
+                0 => format!("log {tokbase}:{j} first line\n  second line\n"),
+                1 | 2 if p.log_fragments => format!("log {tokbase}:{j} unterminated"),
+                _ => format!("log {tokbase}:{j}\n"),
+            };
             evs.insert(pos, Scenario::Log(msg));
+            if t.chance(1, 3) {
+                evs.insert(pos + 1, Scenario::Log(format!(" +{tokbase}:{j}\n")));
+            }
         }
     }
     evs.push(Scenario::Finished);
@@ -791,6 +804,8 @@ pub struct Key {
     pub retries: Option<(usize, usize)>,
     pub what: What,
     pub at: u128,
+    /// identity (address) of the `World` a failed step / hook event carries, 0 if none
+    pub world: usize,
 }
 
 impl Key {
@@ -848,8 +863,25 @@ pub fn sc_what(e: &Scenario<W>) -> What {
     }
 }
 
+fn world_of(e: &Ev) -> usize {
+    let of_sc = |sc: &event::RetryableScenario<W>| -> usize {
+        let w = match &sc.event {
+            Scenario::Step(_, Step::Failed(_, _, w, _)) | Scenario::Background(_, Step::Failed(_, _, w, _)) => w.as_ref(),
+            Scenario::Hook(_, Hook::Failed(w, _)) => w.as_ref(),
+            _ => None,
+        };
+        w.map_or(0, |w| Arc::as_ptr(w) as usize)
+    };
+    match e.as_ref().map(|e| &e.value) {
+        Ok(Cucumber::Feature(_, event::Feature::Scenario(_, sc))) => of_sc(sc),
+        Ok(Cucumber::Feature(_, event::Feature::Rule(_, event::Rule::Scenario(_, sc)))) => of_sc(sc),
+        _ => 0,
+    }
+}
+
 pub fn decode(e: &Ev) -> Key {
-    let k = |f, r, s, retries, what, at| Key { f, r, s, retries, what, at };
+    let world = world_of(e);
+    let k = |f, r, s, retries, what, at| Key { f, r, s, retries, what, at, world };
     match e {
         Err(err) => k(0, 0, 0, None, What::ParserError(err.to_string()), 0),
         Ok(ev) => {
